@@ -113,6 +113,11 @@ Definition check_record (r : rrecord) (real : list Z) : Z :=
   (if list_eqb (e_record r) real then 0 else 2) +
   (match d_record real with Some (r', []) => if list_eqb (e_record r') real then 0 else 4 | _ => 4 end).
 
+(* ... 8 the model decoder accepts one of the given strict prefixes *)
+Definition check_record_pre (r : rrecord) (real : list Z) (ks : list Z) : Z :=
+  check_record r real +
+  (if forallb (fun k => match d_record (firstn (Z.to_nat k) real) with None => true | Some _ => false end) ks then 0 else 8).
+
 (* chunk meta: 1 a field is out of range / the entry counts do not match the segment count; 2 e_chunk_meta differs
    from the real bytes; 4 the model decoder does not return it from the real bytes; 8 the recorded offsets are not the
    builder's layout (per column a 4-byte checksum then its segments back to back, covering exactly [offset, offset+size)) *)
